@@ -628,6 +628,8 @@ class Monitor:
                 if r.order:
                     r.check_order()
                 r.check_loss_report()
+        if 'acct' in on and self.m.wo_started:
+            self.wo_down_check()
         if 'cons' in on:
             self.census()
         if 'res' in on:
@@ -1275,6 +1277,32 @@ class Monitor:
                      f'first difference at position {k}: trace lists {got[k] if k < len(got) else None} '
                      f'(a cancelled event that never ran)')
         self.c['trace_entries'] = len(got)
+
+    def wo_down_check(self):
+        """While a default work order is in progress (start hook seen, end hook not yet) its target is shut down - unless the
+        harness itself restored the machine in the meantime (restore / end of a maintenance action / auto-reset)."""
+        now = self.env.now
+        ended = {}
+        for (t, name) in self.m.wo_ended:
+            ended[name] = ended.get(name, 0) + 1
+        started = {}
+        for (t, name, dur, cost) in self.m.wo_started:
+            started.setdefault(name, []).append(t)
+        for name, ts in started.items():
+            active = ts[ended.get(name, 0):]
+            if not active:
+                continue
+            t_s = active[0]
+            P = self.m.D.get(name)
+            if P is None or not P.is_operational():
+                continue
+            sp = self.m.specs.get(name, {})
+            mine = [a[0] for a in self.m.action_log if a[1] == 'restore' and a[2] == name] + \
+                   [a[0] + a[3] for a in self.m.action_log if a[1] == 'maint' and a[2] == name]
+            if sp.get('autoreset') or any(t_s <= x <= now for x in mine):
+                continue
+            self.bad('C13.work-order-down', f'{name} is operational at {now} although a default work order on it has been in '
+                     f'progress since {t_s} (orders started at {ts}, {ended.get(name, 0)} ended)')
 
     def wo_check(self):
         """A default work order keeps its target shut down for exactly the order's duration."""
